@@ -172,6 +172,9 @@ func (p *parser) parseMailbox() (string, error) {
 		if ch == ' ' || ch == '\t' || ch == '>' {
 			break
 		}
+		if isControl(ch) {
+			return "", fmt.Errorf("malformed domain")
+		}
 		if !literal {
 			switch ch {
 			case '(', ')', '<', '[', ']', ':', ';', '@', '\\', ',', '"':
@@ -189,6 +192,12 @@ func (p *parser) parseMailbox() (string, error) {
 	return sb.String(), nil
 }
 
+// isControl reports whether ch is an ASCII control character. None of them
+// may appear in a path, not even in a quoted-string (RFC 5321 section 4.1.2).
+func isControl(ch byte) bool {
+	return ch < ' ' || ch == 0x7f
+}
+
 func (p *parser) parseLocalPart() (string, error) {
 	var sb strings.Builder
 
@@ -201,7 +210,7 @@ func (p *parser) parseLocalPart() (string, error) {
 			case '"':
 				return sb.String(), nil
 			}
-			if !ok {
+			if !ok || isControl(ch) {
 				return "", fmt.Errorf("malformed quoted-string")
 			}
 			sb.WriteByte(ch)
@@ -216,6 +225,9 @@ func (p *parser) parseLocalPart() (string, error) {
 			case '@':
 				return sb.String(), nil
 			case '(', ')', '<', '>', '[', ']', ':', ';', '\\', ',', '"', ' ', '\t':
+				return "", fmt.Errorf("malformed dot-string")
+			}
+			if isControl(ch) {
 				return "", fmt.Errorf("malformed dot-string")
 			}
 			p.readByte()
